@@ -1,6 +1,8 @@
 import CqlVerif.Drv.LB
 import CqlVerif.Drv.Names
 import CqlVerif.Drv.Retry
+import CqlVerif.Drv.Core
+import CqlVerif.Drv.Storm
 open CqlVerif.Drv
 
 def dispatch (stream op real : String) : Verdict :=
@@ -8,6 +10,8 @@ def dispatch (stream op real : String) : Verdict :=
   | "lb" => LBStream.handle op real
   | "names" => NamesStream.handle op real
   | "retry" => RetryStream.handle op real
+  | "core" => CoreStream.handle op real
+  | "storm" => StormStream.handle op real
   | _ => { kind := "diff", detail := s!"unknown stream {stream}" }
 
 partial def loop (h : IO.FS.Stream) (out : IO.FS.Stream) : IO Unit := do
